@@ -124,6 +124,14 @@ def av_refine(av, op, c):
     return _norm(lo, hi, ex)
 
 
+def av_shift(av, d):
+    """av + d for a constant d (exclusions shifted too)."""
+    if av is None:
+        return None
+    lo, hi, ex = av
+    return AV(None if lo is None else lo + d, None if hi is None else hi + d, frozenset(x + d for x in ex))
+
+
 def av_truth(av):
     if av is None:
         return None
@@ -526,7 +534,10 @@ class Interp:
             p = path(strip(lhs))
             for s, (_, v) in self._seq([self._lhs_base(lhs), n.get("rhs")], st):
                 if n["op"] != "=":
-                    v = None
+                    if n["op"] in ("+=", "-=") and p and v is not None and v.is_const():
+                        v = av_shift(s.sigma.get(p), v.value() if n["op"] == "+=" else -v.value())
+                    else:
+                        v = None
                 if p:
                     s = self.set_path(s, p, v)
                 s = self.assign(s, n, lhs, p, v, n.get("rhs"))
